@@ -653,8 +653,11 @@ func (r *hubRig) skiName(ski string) string {
 
 // spell returns the SKI as a user might type it from a device label (upper case, blanks,
 // dashes) - in a fifth of the calls of runs that have the feature, otherwise unchanged.
-func (r *hubRig) spell(ski string) string {
-	if !r.x.Feat(FeatMoreInputs) || r.x.S.ChooseBiased("ski-spelling", 5, 0.8) == 0 {
+func (r *hubRig) spell(ski string) string { return r.spellP(ski, 0.2) }
+
+// spellP is spell with the share of calls that get the label spelling.
+func (r *hubRig) spellP(ski string, p float64) string {
+	if !r.x.Feat(FeatMoreInputs) || !r.x.Chance("ski-spelling", p) {
 		return ski
 	}
 	r.x.Probe("label-spelling-of-ski")
